@@ -45,6 +45,9 @@ sched_ref = st.one_of(st.none(), st.integers(0, 2))
 
 statement = st.one_of(
     st.tuples(st.just('newjob'), arg, sched_ref),
+    # the caller's own container: given to two constructors, and / or mutated afterwards
+    st.tuples(st.just('newjob-shared'), st.sampled_from(['set', 'list']),
+              st.lists(leaf, max_size=3), st.booleans(), leaf),
     st.tuples(st.just('newseq'), items, arg, sched_ref),
     st.tuples(st.just('append'), st.integers(0, 5), items),
     st.tuples(st.just('seqrequires'), st.integers(0, 5), st.lists(arg, max_size=2)),
@@ -243,6 +246,27 @@ def run_program(case, res):
                         w.m_join(s, [new])
                     if a is not None and a[0] in ('list', 'tuple', 'set'):
                         flags.add('nested-argument')
+                elif op == 'newjob-shared':
+                    if len(w.jobs) >= 7:
+                        continue
+                    _, kind, leaves, twin, later = stmt
+                    a = (kind, leaves)
+                    targets = w.model_targets(a)
+                    container = w.real(a)           # ONE object, owned by the caller
+                    for _ in range(2 if twin else 1):
+                        new = len(w.jobs)
+                        job = SJob('j%d' % new, hkey=(new * 5) % 16, required=container)
+                        w.jobs.append(job)
+                        w.m_req.append(set())
+                        w.m_require(new, targets)
+                    extra = w.real(later)
+                    if extra is not None and not isinstance(extra, Sequence):
+                        # what the caller does with its container afterwards is its business
+                        if kind == 'set':
+                            container.add(extra)
+                        else:
+                            container.append(extra)
+                    flags.add('shared-argument')
                 elif op == 'newseq':
                     if len(w.seqs) >= 5:
                         continue
@@ -389,5 +413,6 @@ def evaluate(case):
     for f in sorted(flags):
         res.label(f)
     res.label('statements:%d' % len(case['program']))
-    res.nontrivial = bool(flags & {'append', 'nested-argument', 'removal', 'nested-sequence'})
+    res.nontrivial = bool(flags & {'append', 'nested-argument', 'removal', 'nested-sequence',
+                                   'shared-argument'})
     return res
